@@ -60,6 +60,10 @@ CHECKS = {
             "Algebraic-law monitor on both value libraries and via generated programs: reflexivity/symmetry/transitivity of equality and agreement with structural equality, clone equality and independence under mutation histories checked against a shadow model, JSON round trips under the value's type, and identical Display text of the same abstract value built in both libraries.",
             "Trusts harness/valuni structEq and the shadow mutation model; the interpreter library has no Clone so copy laws are checked on the VM library.",
             "runtime monitoring: algebraic laws + shadow-model mutation histories over a value universe", "valuni", "DESIGN.md §3 C13"),
+    "C14": ("exploration",
+            "Repetition monitor: programs built to be sensitive to map order (>= 3 modules with overlapping names, objects with many fields printed whole, colliding mangled names, many warnings, impl blocks with conflicting capabilities, multi-field cast errors, fatal stack traces) plus generated programs and the corpus are analysed, compiled and run N=20 (quick) / 100 (thorough) times in one process (each repetition re-draws Go's map iteration seeds), in M fresh child processes, and around an unrelated interferer program; all components (sorted diagnostic multiset, syntax errors, VM and interpreter output/outcome/host calls, canonical code dump, init order) must be identical.",
+            "For maps with <= 8 entries Go only rotates the insertion order, so a rare order shows with probability 1/8 per repetition (miss probability ~3.5% quick, ~2e-6 thorough per program).",
+            "runtime monitoring: repeated analyse+compile+run with component-wise comparison across repetitions and processes", "repetition", "DESIGN.md §3 C14"),
     "C15": ("exploration",
             "Model-linker monitor: exhaustive enumeration (bound stated in the evidence: pairs, triples, import-kind probes, all import-edge subsets over 2-4 modules, self-imports, bare modules, re-exports, mangled-name schemes) plus seeded samples of module graphs with the SAME names reused across modules and tag-returning bodies; a tiny model linker (name -> defining module through the import statements, visibility through pub) predicts the diagnostic class per import and the exact printed tags; every accepted graph is compiled and run 12-16 times with the analysed module map re-inserted in every permutation (the compiler visits modules in map order), on the VM and the interpreter; init-once is observed through per-module singleton loads.",
             "The model linker is harness code (props/c15/model.go) written from the property text.",
